@@ -64,6 +64,15 @@ check("C12", "differential property test over configurations: the same generated
       "In-process compilation with cfg.opt_level; an unstable checker verdict between repeated compilations is left to C19.",
       "DESIGN.md §3 C12")
 
+check("C13", "differential property test over configurations: generated programs compiled for and run by each interpreter 3.7-3.11",
+      "Fragment programs (plus with! templates over a file object, incl. an exception inside the block) are compiled in-process for targets 3.7, 3.8, 3.9, 3.10, 3.11 and each .pyc is run by the installed interpreter of that version; stdout bytes, exception type and exit status must equal the 3.11 build's (confirmed in fresh processes). For each installed interpreter P, `erg --py-command P run probe.er` must execute under P.",
+      "One patch release per minor version; the grammar has no user-defined context managers.",
+      "DESIGN.md §3 C13")
+check("C14", "property test with an abstract interpreter of the target interpreter's own dis.stack_effect over every emitted code object",
+      "Every code object (recursively) of fragment programs and of the repository's import-free .er files that compile is checked, per target 3.7-3.11, by py/validate_code.py running under that interpreter: stack depth never negative and <= co_stacksize on every path (worklist over jumps and 3.11 exception-table handlers), jump targets on instruction boundaries, const/name/local/free indices in range, no unknown opcode, line numbers inside the source for every instruction CPython's own compiler never leaves line-less.",
+      "The validator reports nothing on 200 stdlib modules compiled by each CPython 3.7-3.11. Stack analysis is skipped for generator code and, before 3.9, for code with try/finally/with set-up instructions.",
+      "DESIGN.md §3 C14")
+
 NOT_APPLICABLE = {}
 
 def main():
